@@ -35,3 +35,79 @@ pub open spec fn expanded(is_async: bool, prev: Seq<Tok>, e: ProcessExpr) -> Seq
         _ => prev + e.toks(),
     }
 }
+
+// ---------------------------------------------------------------- C13: handler call
+
+/// `__r0 , __r1 , .. , __r{n-1}` (the spelling comes from construct_result_name)
+pub open spec fn result_names_toks(n: nat) -> Seq<Tok>
+    decreases n
+{
+    if n == 0 { Seq::<Tok>::empty() }
+    else if n == 1 { seq![Tok::Ident(construct_result_name_spec(0))] }
+    else { result_names_toks((n - 1) as nat) + seq![Tok::Punct(',')] + seq![Tok::Ident(construct_result_name_spec((n - 1) as usize))] }
+}
+
+pub proof fn lemma_names_sep(v: Seq<Ident>, n: nat)
+    requires v.len() == n, n <= usize::MAX, forall|i: int| 0 <= i < n ==> (#[trigger] v[i]).name() =~= construct_result_name_spec(i as usize),
+    ensures seq_toks_sep(v, ',') == result_names_toks(n), all_tokenizable(v),
+    decreases n,
+{
+    if n == 0 {
+    } else if n == 1 {
+        assert(v[0].toks() =~= seq![Tok::Ident(construct_result_name_spec(0))]);
+    } else {
+        lemma_names_sep(v.drop_last(), (n - 1) as nat);
+        assert(v.last().toks() =~= seq![Tok::Ident(construct_result_name_spec((n - 1) as usize))]);
+    }
+}
+
+/// `let (r0, r1, ..) = rs;` -- for one name the parentheses are plain grouping
+pub open spec fn let_tuple(names: Seq<Tok>, rs: Seq<Tok>) -> Seq<Tok> {
+    seq![Tok::Ident("let"@)] + group(Delim::Paren, names) + seq![Tok::Punct('=')] + rs + seq![Tok::Punct(';')]
+}
+
+/// what `extract_results_tuple(rs, names, handler, None)` prints
+pub open spec fn extract_all(rs: Seq<Tok>, names: Seq<Tok>, handler: Option<&Ident>) -> Seq<Tok> {
+    match handler {
+        None => let_tuple(names, rs),
+        // `{ let (r0, ..) = rs; h(r0, ..) }`: the handler is called exactly once, with the values in branch order
+        Some(h) => group(Delim::Brace, let_tuple(names, rs) + h.toks() + group(Delim::Paren, names)),
+    }
+}
+
+pub open spec fn await_toks(is_async: bool) -> Seq<Tok> {
+    if is_async { seq![Tok::Punct('.'), Tok::Ident("await"@)] } else { Seq::<Tok>::empty() }
+}
+
+/// C13: no handler -> the results; `then` -> call (awaited in async); `map`/`and_then` -> applied through
+/// `.map` / `.and_then` on the (transposed) result, so only on success; async `map` maps inside the future's output
+pub open spec fn doc_handle(is_async: bool, h: HKind, rs: Seq<Tok>, hname: Seq<Tok>, names: Seq<Tok>) -> Seq<Tok> {
+    let call = group(Delim::Brace, let_tuple(names, rs) + hname + group(Delim::Paren, names));
+    match h {
+        HKind::NoHandler => rs,
+        HKind::Then => call + await_toks(is_async),
+        HKind::Map => value_block(is_async, rs) + seq![Tok::Punct('.'), Tok::Ident("map"@)]
+            + group(Delim::Paren, seq![Tok::Punct('|')] + rs + seq![Tok::Punct('|')]
+                + group(Delim::Brace, if is_async { rs + seq![Tok::Punct('.'), Tok::Ident("map"@)] + group(Delim::Paren, seq![Tok::Punct('|')] + rs + seq![Tok::Punct('|')] + call) } else { call }))
+            + await_toks(is_async),
+        HKind::AndThen => value_block(is_async, rs) + seq![Tok::Punct('.'), Tok::Ident("and_then"@)]
+            + group(Delim::Paren, seq![Tok::Punct('|')] + rs + seq![Tok::Punct('|')] + group(Delim::Brace, call))
+            + await_toks(is_async),
+    }
+}
+
+/// the loop `(0..n).map(construct_result_name).collect()` written out (R12); calls the real constructor
+pub fn result_name_vec(n: usize) -> (r: Vec<Ident>)
+    ensures r@.len() == n, forall|i: int| 0 <= i < n ==> (#[trigger] r@[i]).name() =~= construct_result_name_spec(i as usize),
+{
+    let mut v: Vec<Ident> = Vec::new();
+    let mut i: usize = 0;
+    while i < n
+        invariant i <= n, v@.len() == i, forall|k: int| 0 <= k < i ==> (#[trigger] v@[k]).name() =~= construct_result_name_spec(k as usize),
+        decreases n - i,
+    {
+        v.push(construct_result_name(i));
+        i += 1;
+    }
+    v
+}
